@@ -387,6 +387,13 @@ Definition ctl_step (s : st) (l : label) : option st :=
   | CShut2 k, LIsSet EShut false => if shut s then None else Some (ctl s (CShut3 k))
   | CShut3 k, LSet ERes => Some (set_res s true (CShut4 k))
   | CShut4 k, LSet EShut => Some (set_misc s (ret_cont k) (clk s) (acked s) (saving s) false (craised s) true (queue s))
+  (* a KeyboardInterrupt that arrives while a shutdown requested otherwise is in progress (before the clock
+     is resumed, or before one of the events is read or set): the finally-shutdown starts it again from the beginning *)
+  | CShut0 k, LInterrupt | CShut1 k, LInterrupt | CShut2 k, LInterrupt | CShut3 k, LInterrupt | CShut4 k, LInterrupt =>
+      match k with
+      | KFinally => None
+      | _ => Some (set_misc s (CShut0 KFinally) (clk s) (acked s) false (running s) (craised s) (shut s) (queue s))
+      end
   (* epilogue of launch() *)
   | CJoin k, LJoin (TBg j) =>
       if Nat.eqb k j && match bp s j with BDone => true | _ => false end then Some (ctl s (if S k =? n then CFinScale else CJoin (S k))) else None
